@@ -3,6 +3,7 @@ import Driver.C06
 import Driver.C05
 import Driver.C11
 import Driver.SqlTx
+import Driver.SqlMv
 import Driver.C14
 import Driver.C07
 import Driver.C02
@@ -26,6 +27,7 @@ structure State where
   c05 : C05.St := {}
   c13 : SqlTx.St := {}
   c12 : SqlTx.St := {}
+  c12mv : SqlMv.St := {}
   c11 : C11.St := {}
   c14 : C14.St := {}
   c07 : C07.St := {}
@@ -60,6 +62,7 @@ def step (st : State) (line : String) : State × String :=
   | "c07" :: rest => let (s, o) := C07.step st.c07 rest; ({ st with c07 := s }, o)
   | "c14" :: rest => let (s, o) := C14.step st.c14 rest; ({ st with c14 := s }, o)
   | "c11" :: rest => let (s, o) := C11.step st.c11 rest; ({ st with c11 := s }, o)
+  | "c12" :: "mv" :: rest => let (s, o) := SqlMv.step st.c12mv rest; ({ st with c12mv := s }, o)
   | "c12" :: rest => let (s, o) := SqlTx.step' true st.c12 rest; ({ st with c12 := s }, o)
   | "c13" :: rest => let (s, o) := SqlTx.step' false st.c13 rest; ({ st with c13 := s }, o)
   | "c05" :: rest => let (s, o) := C05.step st.c05 rest; ({ st with c05 := s }, o)
